@@ -337,6 +337,12 @@ func (d *tDecoder) decodeType(t *tType, b []byte, p unsafe.Pointer, maxdepth int
 			}
 			i += n
 			tmp = vp
+			if vt.T == tSTRUCT && !vt.IsPointer {
+				// a by-value struct is decoded in place into the reused tmp var,
+				// and Decode only writes the fields present in the message:
+				// clear what the previous entry (or call) left there
+				v.SetZero()
+			}
 			if vt.IsPointer { // tmp = &sliceV[j]
 				if j != 0 { // next
 					sliceV = unsafe.Add(sliceV, vt.V.Size)
